@@ -80,7 +80,9 @@ def asjson(obj: Any, seen: set[int] | None = None) -> Any:
                     if not isinstance(serializable, type):
                         result = serializable.__json__(seen=seen)
                     else:
-                        result = serializable
+                        # NOTE: the class itself, not an instance: shown like
+                        #   any other class (json cannot dump a class object)
+                        result = repr(serializable)
                 case enum.Enum() as en:
                     result = dfs(en.value)
                 case _ if isinstance(
